@@ -198,6 +198,28 @@ def run_case(desc):
                 add("ExtLabelEncoder", "round-trip-changes-shape", "y shape %s -> %s" % (y.shape, np.asarray(dec).shape))
             elif not all(_eq(d, o) for d, o in zip(np.asarray(dec).reshape(-1).tolist(), flat.tolist())):
                 add("ExtLabelEncoder", "round-trip-fails", "y=%r -> %r -> %r" % (_short(y), np.asarray(enc).tolist(), np.asarray(dec).tolist()))
+            # ---- the same encoder object fitted again with another class list (set_params / copy / pickle in between)
+            # must behave like a fresh encoder built with that list
+            classes2 = sorted(set(classes))[:2]
+            y2 = np.array([classes2[i % 2] for i in range(3)] + [ml], dtype=dt)
+            how = (desc["seed"] >> 12) % 3
+            used = le
+            if how == 1:
+                import copy
+                used = copy.deepcopy(le)
+            elif how == 2:
+                import pickle
+                used = pickle.loads(pickle.dumps(le))
+            used.set_params(classes=list(classes2))
+            e_used = np.asarray(used.fit_transform(y2)).tolist()
+            fresh = U.ExtLabelEncoder(classes=list(classes2), missing_label=ml)
+            e_fresh = np.asarray(fresh.fit_transform(y2)).tolist()
+            fc.count("C16.refit-oracle")
+            if list(used.classes_) != list(fresh.classes_) or e_used != e_fresh:
+                add("ExtLabelEncoder", "refit-with-other-classes-differs-from-fresh-encoder",
+                    "after %s: classes_ %r codes %r, fresh encoder: classes_ %r codes %r" % (
+                        ["set_params", "deepcopy + set_params", "pickle + set_params"][how], list(used.classes_), e_used,
+                        list(fresh.classes_), e_fresh))
     except Exception as ex:
         add("label-utils", "exception:%s" % type(ex).__name__, "y=%r ml=%r: %s" % (_short(y), ml, str(ex)[:150]))
     for v in fc.drain():
